@@ -278,7 +278,15 @@ func runC37Extra(c *Ctx) {
 	if f := c.mustFn("service", "txIDManager", "HasRecent"); f != nil {
 		for _, e := range exitAlts(f) {
 			r0, r1 := render(e.Results[0]), render(e.Results[1])
-			c.check(r0 == "$r.lm.Has($0,$1,$2)#0" && r1 == "$r.lm.Has($0,$1,$2)#1", "C37.has-recent", "HasRecent answers from the locator manager", e.pos(), "lm.Has(g, id, ts)", "HasRecent returns ("+r0+", "+r1+") without consulting the locator for this group: an already included transaction is selected again")
+			okA := r0 == "$r.lm.Has($0,$1,$2)#0" && r1 == "$r.lm.Has($0,$1,$2)#1"
+			if !okA && r0 == "$r.lm.Has($0,$1,$2)#0" && isNilConst(e.Results[1]) {
+				// the same pair with the error branch written out: (has, nil) behind err == nil
+				_, okA = holds(e.Guards, wSame("lookup succeeded", `^\$r\.lm\.Has\(\$0,\$1,\$2\)#1$`, `^nil$`))
+			}
+			if !okA && r1 == "$r.lm.Has($0,$1,$2)#1" && isConstBool(e.Results[0], false) {
+				okA = definitelyNonNilErr(e.Results[1], e.Guards) // (false, err) on the error branch
+			}
+			c.check(okA, "C37.has-recent", "HasRecent answers from the locator manager", e.pos(), "lm.Has(g, id, ts)", "HasRecent returns ("+r0+", "+r1+") without consulting the locator for this group: an already included transaction is selected again")
 		}
 	}
 }
